@@ -105,6 +105,9 @@ MUTANTS = [
     ("frame-return-decided-by-state", "C05", "R-FRAME-RETURN", "compile_frame", "crates/bytecode/src/compiler.rs",
      "            if !last_expression_is_return {",
      "            if !(last_expression_is_return && self.span_stack.len() > 1) {"),
+    ("conv-unwrap-second-digit-untested", "C06", "R-CONV-UNWRAP", "escape_string_character", "crates/parser/src/parser.rs",
+     "                    Some(c2) if c2.is_ascii_hexdigit() => {",
+     "                    Some(c2) if c1.is_ascii_hexdigit() => {"),
     # ---- R-BUILDER-BAL
     ("builder-string-finish-conditional", "C05", "R-BUILDER-BAL", "compile_string", "crates/bytecode/src/compiler.rs",
      "                        if let Some(result_register) = result.register {\n                            self.push_op(Op::StringFinish, &[result_register]);\n                        }",
